@@ -519,7 +519,7 @@ theorem VInv.carry {st : St β} (v : VInv st) (w : WF h st) {rp' : Repo β} (hpr
 
 theorem finish_vinv {pl : Plug π β} {head : Nat} {st st' : St β} {c : Nat} {cm : Commit π} {fr : List Nat}
     (w : WF h st) (w' : WF h st') (v : VInv st) (hfr : ∀ r ∈ fr, r < st.rp.rcs.length)
-    (hf : finish pl head st c cm fr = .ok st') : VInv st' := by
+    {rel : List Nat} (hf : finish pl head rel st c cm fr = .ok st') : VInv st' := by
   obtain ⟨rp, br⟩ := st
   have hpre := finish_prefix hf
   have hfr : ∀ r ∈ fr, r < rp.rcs.length := hfr
@@ -541,7 +541,7 @@ theorem finish_vinv {pl : Plug π β} {head : Nat} {st st' : St β} {c : Nat} {c
       (fun x _ => by simp only [CurB, hcur])
     exact ⟨h1, h2, fun b hb' => h3 b (by rw [hb] at hb'; exact hb')⟩
   | plainMatch =>
-    obtain ⟨h1, h2, h3⟩ := v.carry w (rp' := rp.addRC { commit := c, parents := fr, explicit := true, bns := [] })
+    obtain ⟨h1, h2, h3⟩ := v.carry w (rp' := rp.addRC { commit := c, parents := fr, explicit := true, bns := [], time := cm.time })
       ⟨[_], rfl⟩ w'.rcPar (fun x _ => Iff.rfl)
     exact ⟨h1, h2, h3⟩
   | skip bpar new pb pbs bumps _ _ hfn =>
@@ -558,7 +558,7 @@ theorem finish_vinv {pl : Plug π β} {head : Nat} {st st' : St β} {c : Nat} {c
     exact ⟨h1, h2, fun b hb' => h3 b (by simp only [St.skipBuild] at hb'; rw [hb] at hb'; exact hb')⟩
   | build bpar new pb pbs bumps bn na _ hfn _ _ _ _ hna =>
     obtain ⟨hvb, hpbn, hpbm⟩ := findNew_vals w.rcPar hlt v.anc hanck v.vals hfn
-    let rc : RC := { commit := c, parents := fr, explicit := cm.isMatch, bns := buildNums cm (c == head) }
+    let rc : RC := { commit := c, parents := fr, explicit := cm.isMatch, bns := buildNums cm (c == head), time := cm.time }
     let s1 : St β := St.addBuild ⟨rp, br⟩ rc bn bpar new pb bumps na
     have hs1rcs : s1.rp.rcs = rp.rcs ++ [rc] := rfl
     have hnp : rp.rcs.length ∉ rp.prevBuilds := fun hm' => by have := w.prevLt _ hm'; simp only at this; omega
